@@ -325,6 +325,31 @@ func (x *ramExec) compare(st *ramState) bool {
 			x.viol("fid-denotes", fmt.Sprintf("session %d fid %d denotes qid path %d (err %v), the model says node %d = qid path %d", s, f, d.Qid.Path, err, t.N, x.qid[t.N]))
 			return false
 		}
+		// the chain of directories the fid was reached through: ".." x depth must walk it back to the root
+		if k := len(t.Chain); k > 0 && st.Kind[t.N-1] == "dir" {
+			ups := make([]string, k)
+			for i := range ups {
+				ups[i] = ".."
+			}
+			const tmp = p9p.Fid(77777)
+			var qs []p9p.Qid
+			okc, dump := hx.RunTimed(hxTimeout, func() { qs, err = x.session(s).Walk(ctx, p9p.Fid(f), tmp, ups...) })
+			if !okc {
+				x.viol("panic-or-hang:walk", hx.Trunc(dump, 800))
+				return false
+			}
+			if err == nil && len(qs) == k {
+				x.session(s).Clunk(ctx, tmp)
+			}
+			okq := err == nil && len(qs) == k
+			for i := 0; okq && i < k; i++ {
+				okq = qs[i].Path == x.qid[t.Chain[k-1-i]]
+			}
+			if !okq {
+				x.viol("fid-chain", fmt.Sprintf("session %d fid %d was reached through nodes %v; walking %d x '..' from it gives qids %v (err %v)", s, f, t.Chain, k, qs, err))
+				return false
+			}
+		}
 	}
 	if !anyBound {
 		if err := ramfs.VerifValidate(x.fs); err != nil {
